@@ -57,14 +57,16 @@ var sysNames = map[uint64]string{
 var errnos = map[string]syscall.Errno{
 	"EACCES": syscall.EACCES, "EPERM": syscall.EPERM, "ENOSPC": syscall.ENOSPC, "EIO": syscall.EIO, "EFBIG": syscall.EFBIG,
 	"EROFS": syscall.EROFS, "EMFILE": syscall.EMFILE, "EDQUOT": syscall.EDQUOT, "EXDEV": syscall.EXDEV, "ENOMEM": syscall.ENOMEM,
-	"EBUSY": syscall.EBUSY, "EINTR": syscall.EINTR, "ENOENT": syscall.ENOENT,
+	"EBUSY": syscall.EBUSY, "EINTR": syscall.EINTR, "ENOENT": syscall.ENOENT, "EAGAIN": syscall.EAGAIN, "ESTALE": syscall.ESTALE,
 }
 
 type tamper struct {
-	left map[string]bool // files that were in the directory before the run (left behind by an earlier run): object "left"
-	delayOpen time.Duration // hold every thread this long when it returns from openat (widens races between threads)
-	at        int           // index (1-based) of the call on target/tmp to disturb; 0 = none
-	kind      string        // "err", "kill", "short"
+	pOp       string // environment: EVERY call of this kind fails (persistent fault), with pErrno
+	pErrno    syscall.Errno
+	left      map[string]bool // files that were in the directory before the run (left behind by an earlier run): object "left"
+	delayOpen time.Duration   // hold every thread this long when it returns from openat (widens races between threads)
+	at        int             // index (1-based) of the call on target/tmp to disturb; 0 = none
+	kind      string          // "err", "kill", "short"
 	errno     syscall.Errno
 	k         int // bytes a short write transfers
 }
@@ -194,6 +196,7 @@ func trace(argv []string, dir string, env []string, target string, tp tamper) tr
 	}
 	pending := map[int]*pend{}
 	slowTid := map[int]bool{}
+	persistOp := ""
 	known := map[int]bool{mainPid: true}
 	shortObj := "" // object whose next write fails after an injected short write
 	nev := 0
@@ -360,8 +363,15 @@ func trace(argv []string, dir string, env []string, target string, tp tamper) tr
 						res.events[pd.ev].Inj = true
 					}
 				}
-				if tp.at == nev {
+				if tp.pOp != "" && ev.Op == tp.pOp && !(tp.at == nev && tp.kind == "kill") {
+					inject(tp.pErrno)
+				} else if persistOp != "" && ev.Op == persistOp && tp.at < nev {
+					inject(tp.errno) // persistent fault: every later call of the same kind fails too
+				} else if tp.at == nev {
 					switch tp.kind {
+					case "perr":
+						persistOp = ev.Op
+						inject(tp.errno)
 					case "err":
 						inject(tp.errno)
 					case "kill":
